@@ -616,6 +616,7 @@ def plan(tier, seed):
     shards = [{"part": "rule-enum", "len": L, "i": i, "n": n, "bound": f"Rule histories len<={L} (no dedup)"} for i in range(n)]
     shards.append({"part": "rule-bfs", "bound": "Rule BFS to fixpoint"})
     shards.append({"part": "rule-tla", "bound": "TLC RuleBuilder model + conformance replay"})
+    shards.append({"part": "layer-tla", "bound": "TLC LayerRuleBuilder model + conformance replay"})
     shards.append({"part": "rule-perturb", "bound": "Rule complete chains +- one call"})
     Ll = 5 if tier == "quick" else 6
     shards.append({"part": "layer-bfs", "depth": 8 if tier == "quick" else 11, "bound": "LayerRule BFS"})
@@ -628,7 +629,7 @@ def plan(tier, seed):
         shards.append(dict(s, part="unknown", bound="unknown names " + s["bound"]))
     req = ["rule:MUST_ERROR:ERR", "rule:COMPLETE:PASS", "rule:COMPLETE:FAIL", "layer:MUST_ERROR:ERR", "layer:COMPLETE:PASS",
            "layer:COMPLETE:FAIL", "diagram:MUST_ERROR:ERR", "unknown-name:ERR", "regex-nomatch:ERR", "entry-options:ERR",
-           "entry-path:ERR", "entry-valid:OK", "empty-spec:ERR", "rule-tla:MUST_ERROR", "rule-tla:COMPLETE"]
+           "entry-path:ERR", "entry-valid:OK", "empty-spec:ERR", "rule-tla:MUST_ERROR", "rule-tla:COMPLETE", "layer-rule-tla:MUST_ERROR", "layer-rule-tla:COMPLETE"]
     return {"shards": shards, "require_nonzero": req}
 
 
@@ -683,6 +684,13 @@ def run_shard(shard, tier, seed):
         from .. import conform_rule_tla
 
         conform_rule_tla.run(res, tier, sys.modules[__name__])
+    elif part == "layer-tla":
+        import sys
+
+        from .. import conform_layerrule_tla
+        from . import c16
+
+        conform_layerrule_tla.run(res, tier, sys.modules[__name__], c16, "terminal")
     elif part == "entry":
         entry_point_cases(res)
     elif part == "empty":
@@ -753,6 +761,13 @@ def _check_case(case):
         ns, I = case["modules"], [tuple(e) for e in case["imports"]]
         unknown_name_cases(ns, I, 0, res)
         res.violations = [v for v in res.violations if v["kind"] == "regex-without-match-gives-verdict"]
+    elif part == "layer-tla":
+        import sys
+
+        from .. import conform_layerrule_tla
+        from . import c16
+
+        conform_layerrule_tla.run(res, tier, sys.modules[__name__], c16, "terminal")
     elif part == "entry":
         entry_point_cases(res)
     elif part == "reconfigured":
